@@ -29,9 +29,28 @@ ASSUMPTIONS = [
 EXPECTED_PROBES = ["F2", "variant_garbage", "variant_ascending", "variant_mask_history", "shared_memory_runs", "identities_checked"]
 
 PLAN = {
-    "quick": {"workloads": 96, "variants": 60, "wall_budget": 30.0, "min_variants": 6, "wall_limit": 1500.0, "per_job_limit": 900.0},
-    "thorough": {"workloads": 1600, "variants": 400, "wall_budget": 120.0, "min_variants": 12, "wall_limit": 8 * 3600.0, "per_job_limit": 2400.0},
+    "quick": {"workloads": 96, "variants": 60, "wall_budget": 200.0, "min_variants": 6, "wall_limit": 2400.0, "per_job_limit": 1200.0},
+    "thorough": {"workloads": 1600, "variants": 400, "wall_budget": 1500.0, "min_variants": 12, "wall_limit": 10 * 3600.0, "per_job_limit": 3600.0},
 }
+
+
+def variants_for(wl, tier):
+    # runs per workload as a function of the workload's kind (measured cost per run: tr-nnls 13 ms, zhit 98,
+    # fit 30-90 (powell 765), KK 30-330, lm 178, bht 141, mrq-fit 802): 10-25 s of work per workload
+    m = wl["kwargs"].get("method")
+    if wl["kind"] == "drt":
+        n = {"tr-nnls": 500, "lm": 100, "bht": 100, "mrq-fit": 25}.get(m, 60)
+    elif wl["kind"] == "fit":
+        n = 40 if "powell" in (m if isinstance(m, list) else [m]) else 160
+    elif wl["kind"] == "zhit":
+        n = 130
+    else:
+        n = 70
+    return n if tier == "quick" else n * 6
+
+
+def workload_meta(wl):
+    return {"kind": wl["kind"]}
 
 
 def gen_workload(rng, tier):
